@@ -112,6 +112,17 @@ def run(program, res, tier):
         res.fail_at("C25-S1", hd, f"cell-types-not-collected-for:{','.join(sorted(hiding - named))}",
                     f"the per-cell types are collected for {sorted(named)} columns only: a categorical column's dtype prints as 'category' whatever it holds, so categories "
                     f"int8 [-1, 5] and int64 [255, 5] (same bit pattern) or 10 and '10' share a key — get() for a never stored table returns the other table's result", dtype_filters[0])
+    # every alternative of the per-column type list really looks at types (cells for object columns, categories for categorical ones)
+    for comp in ast.walk(hd.node):
+        if isinstance(comp, ast.ListComp) and any("dtype" in unparse(i) for g_ in comp.generators for i in g_.ifs):
+            arms = [comp.elt.body, comp.elt.orelse] if isinstance(comp.elt, ast.IfExp) else [comp.elt]
+            for arm in arms:
+                if any(isinstance(c, ast.Call) and dotted_name(c.func) == "type" for c in ast.walk(arm)):
+                    res.ok("C25-S1", f"`{unparse(arm)[:50]}` collects the types of the values")
+                else:
+                    res.fail_at("C25-S1", hd, "cell-types-not-collected",
+                                f"`{unparse(arm)[:60]}` stands where the types of a column's values are collected and does not look at types: object cells are hashed through "
+                                f"str(), so [10, 9, 100] and ['10', '9', '100'] share a key", arm)
     if any("categories" in unparse(c) and "dtype" in unparse(c) for c in ast.walk(hd.node) if isinstance(c, (ast.Attribute, ast.JoinedStr))):
         res.ok("C25-S1", "the dtype of a categorical column's categories is part of the key")
     else:
